@@ -18,3 +18,16 @@ package stateroot
 //@ pure
 //@ requires s != nil
 //@ ensures result == s.root
+
+//@ prop C11
+//@ import mpt github.com/nspcc-dev/neo-go/pkg/core/mpt
+
+// The collector's decision for one stored trie node: it is deleted exactly when it is
+// marked inactive and the height it was deactivated at is not above the collected index
+// (a node deactivated by block h is still part of the state of h-1, which GC(index) keeps
+// for every index < h); iteration always continues.
+//@ func (*Module).GC$1
+//@ requires len(v) >= 5
+//@ modifies removed, stored
+//@ ensures[decision] result0 == !(v[len(v)-5] != 1 && mpt.le32s(v, len(v)-4) <= index)
+//@ ensures[continue] result1
